@@ -1105,4 +1105,8 @@ theorem C07_resync_here (H : List Text) :
     fun ids c hc g hg r n => C07_resync_legacy _ h2 _ c rfl (by simpa [Table.init] using hc) rfl rfl g hg r n,
     fun ids c hc g hg o => C07_resync_stdio _ h3 H _ c rfl (by simpa [Table.init] using hc) rfl g hg o⟩
 
+/-- regenerated fact, decided: every assignment of the remembered event id / every `Last-Event-ID` header write sits
+    behind a header-safety check (D33 repaired in /repo f1950f8) — the good region of `C07_later_call_streamable`. -/
+theorem C07_fact_id_checked : Mcp.Gen.rdIdChecked = true := by decide
+
 end Mcp.Props.C07
